@@ -41,9 +41,15 @@ pub struct AddressSpace { pub x: u64 }
 // std::collections::HashSet<u32> of the element indices on the evaluation path
 pub struct HashSet<T> { pub elems: Vec<T> }
 impl HashSet<u32> {
-    #[verifier::external_body] pub fn contains(&self, k: &u32) -> (r: bool) { unimplemented!() }
-    #[verifier::external_body] pub fn insert(&mut self, k: u32) -> (r: bool) { unimplemented!() }
-    #[verifier::external_body] pub fn remove(&mut self, k: &u32) -> (r: bool) { unimplemented!() }
+    pub uninterp spec fn set(&self) -> Set<u32>;           // the indices it holds (std set semantics)
+    #[verifier::external_body] pub fn contains(&self, k: &u32) -> (r: bool) ensures r == self.set().contains(*k) { unimplemented!() }
+    #[verifier::external_body] pub fn insert(&mut self, k: u32) -> (r: bool) ensures final(self).set() == old(self).set().insert(k) { unimplemented!() }
+    #[verifier::external_body] pub fn remove(&mut self, k: &u32) -> (r: bool) ensures final(self).set() == old(self).set().remove(*k) { unimplemented!() }
+}
+// termination measure of the evaluate / value_of recursion: the elements of the clause that are not on the evaluation path yet
+pub open spec fn cap(n: nat) -> int { if n > 0x1_0000_0000 { 0x1_0000_0000 } else { n as int } }      // an index is a u32
+pub open spec fn free(used: Set<u32>, n: nat) -> nat {
+    vstd::set_lib::set_int_range(0, cap(n)).filter(|k: int| !used.contains(k as u32)).len()
 }
 pub struct Regex { pub x: u64 }
 impl Regex { #[verifier::external_body] pub fn is_match(&self, s: &str) -> (r: bool) { unimplemented!() } }
@@ -345,6 +351,44 @@ for _n, _s in [('eq', 'sem_eq'), ('gt', 'sem_gt'), ('lt', 'sem_lt'), ('gte', 'se
             floats_free(ctx(object_id, old(used_elements), elements, address_space), operands@) ==>
                 r == %s(ctx(object_id, old(used_elements), elements, address_space), operands@),''' % _s)
 
+# variant 'term': every function of the evaluate / value_of cycle with the real bodies; contracts reduced to the frame (the set of
+# used elements is the same afterwards) and a `decreases` measure: (elements not on the path yet, level of the function in the cycle)
+TERM_LEVEL = {'evaluate': 4, 'eq': 3, 'gt': 3, 'lt': 3, 'gte': 3, 'lte': 3, 'like': 3, 'not': 3, 'between': 3, 'and': 3, 'or': 3, 'is_null': 3,
+              'bitwise_and': 3, 'bitwise_or': 3, 'bitwise_operation': 2, 'compare_operands': 1, 'value_as': 1, 'value_of': 0}
+TERM_ENV = '''
+// value_of_simple_attribute: browse path lookup in the address space (no recursion into the filter)
+#[verifier::external_body]
+pub fn value_of_simple_attribute(object_id: &NodeId, o: &SimpleAttributeOperand, address_space: &AddressSpace) -> (r: Variant)
+{ unimplemented!() }
+'''
+TERM_LEMMAS = '''
+// putting an element of the clause on the path leaves fewer elements off it
+proof fn lemma_free_insert(used: Set<u32>, n: nat)
+    ensures forall|i: u32| (i as int) < n && !used.contains(i) ==> #[trigger] free(used.insert(i), n) < free(used, n),
+{
+    assert forall|i: u32| (i as int) < n && !used.contains(i) implies #[trigger] free(used.insert(i), n) < free(used, n) by {
+        let r = vstd::set_lib::set_int_range(0, cap(n));
+        vstd::set_lib::lemma_int_range(0, cap(n));
+        let a = r.filter(|k: int| !used.contains(k as u32));
+        let b = r.filter(|k: int| !used.insert(i).contains(k as u32));
+        assert(a.contains(i as int));
+        assert(b =~= a.remove(i as int)) by {
+            assert forall|k: int| b.contains(k) == a.remove(i as int).contains(k) by {
+                if r.contains(k) && k != i as int { assert((k as u32) != i); }
+            }
+        }
+    }
+}
+'''
+
+def term_contract(n):
+    """frame + measure; the precondition on the number of operands is the one of the 'ops' variant"""
+    req = re.search(r'^\s*requires [^\n]*\n', SPEC[n][1], re.M) if n in SPEC else None
+    return ((req.group(0) if req else '')
+            + '        ensures final(used_elements).set() == old(used_elements).set(),\n'
+            + '        decreases free(old(used_elements).set(), elements@.len()), %dint,' % TERM_LEVEL[n])
+
+
 FLOATS_FREE = '''
 // the operands being compared do not end up as floating point values (for which only totality is proved)
 pub open spec fn floats_free(c: Ctx, ops: Seq<Operand>) -> bool {
@@ -403,16 +447,24 @@ def build_variant(manifest, variant, pid):
 }
 impl From<%(t)s> for Variant { fn from(v: %(t)s) -> (r: Variant) { Variant::%(v)s(v) } }''' % dict(t=t, v=v) for t, v in FROMS)
     env = ENV.replace('FROM_IMPLS', froms)
-    if variant == 'ops':
+    if variant in ('ops', 'term'):
         names = ['convert', 'value_as', 'compare_operands', 'is_null', 'eq', 'gt', 'lt', 'gte', 'lte', 'like', 'not', 'between',
                  'and', 'or', 'bitwise_operation', 'bitwise_and', 'bitwise_or', 'evaluate']
+        if variant == 'term':
+            names.append('value_of')
     else:
         names = ['value_of']
     f = {}
     for n in names:
         t = norm_vis(clean_fn(op.free_fn(n)))
         t = re.sub(r'^fn ', 'pub fn ', t, count=1)
-        f[n] = splice_contract(t, SPEC[n][1], SPEC[n][0])
+        if variant == 'term' and n in TERM_LEVEL:
+            t = splice_contract(t, term_contract(n), 'r')
+            if n == 'value_of':
+                t = splice_body_start(t, '    proof { lemma_free_insert(old(used_elements).set(), elements@.len() as nat); }')
+            f[n] = t
+        else:
+            f[n] = splice_contract(t, SPEC[n][1], SPEC[n][0])
     f['type_id'] = splice_contract(norm_vis(clean_fn(va.impl_fn(r'^impl Variant \{', 'type_id'))), SPEC['type_id'][1], 'r')
     f['precedence'] = splice_contract(norm_vis(clean_fn(vt.impl_fn(r'^impl VariantTypeId \{', 'precedence'))), SPEC['precedence'][1], 'r')
     types = '\n'.join([
@@ -428,7 +480,7 @@ impl From<%(t)s> for Variant { fn from(v: %(t)s) -> (r: Variant) { Variant::%(v)
     a.add('use vstd::prelude::*;\n' + macro_def(op, 'compare_values') + '\n' + macro_def(op, 'bitwise_operation') + '\nverus! {\nglobal size_of usize == 8;\n', 'prelude', 'env')
     a.add(norm_vis(types), 'types', 'env')
     a.add(env + FLOATS_FREE, 'env', 'env')
-    a.add(VALUE_OF_ENV if variant == 'ops' else EVALUATE_ENV, 'env2', 'env')
+    a.add({'ops': VALUE_OF_ENV, 'rec': EVALUATE_ENV, 'term': TERM_ENV}[variant], 'env2', 'env')
     a.add('impl Variant {')
     a.add(f['type_id'], 'Variant::type_id', 'fn')
     a.add('}\nimpl VariantTypeId {')
@@ -439,6 +491,14 @@ impl From<%(t)s> for Variant { fn from(v: %(t)s) -> (r: Variant) { Variant::%(v)
     if variant == 'ops':
         add_proof_fns(a, LEMMAS, 'lemma')
         add_proof_fns(a, CANARY, 'canary')
+    elif variant == 'term':
+        add_proof_fns(a, TERM_LEMMAS, 'lemma')
+        add_proof_fns(a, '''
+proof fn canary_term(used: Set<u32>, n: nat, i: u32)
+    requires (i as int) < n, !used.contains(i), n == 3,
+    ensures false,
+{}
+''', 'canary')
     else:
         add_proof_fns(a, '''
 proof fn canary_rec(o: Operand, n: int)
@@ -447,7 +507,7 @@ proof fn canary_rec(o: Operand, n: int)
 {}
 ''', 'canary')
     a.add('}\nfn main() {}\n')
-    return dict(asm=a, pid=pid, short='ops' if variant == 'ops' else 'value_of', clauses={k: SPEC[k][1] for k in f}, twins={}, witness={},
+    return dict(asm=a, pid=pid, short={'ops': 'ops', 'rec': 'value_of', 'term': 'termination'}[variant], clauses={k: SPEC[k][1] for k in f}, twins={}, witness={},
                 assumptions=['C39: Variant::convert is a function of (value, type) that returns the value itself for its own type and '
                              'otherwise a value of the target type or Empty (Part 4 table 118); #[derive(PartialEq)] on Variant is '
                              'structural on Boolean / Empty; From<scalar> for Variant wraps the value',
